@@ -434,7 +434,9 @@ class WG(DG):
                 cl.append("(include %s)" % self.ident())
             if top_level and r.random() < 0.3:
                 cl.append("(ifnotexists)")
-            if top_level and r.random() < 0.35:
+            # (a predicate on an index attached to CREATE TABLE has no place in a table constraint: nothing of it
+            # may be written there)
+            if (top_level and r.random() < 0.35) or (not top_level and r.random() < 0.15):
                 cl.append("(andwhere %s)" % self.wexpr())
                 if r.random() < 0.3:
                     cl.append("(andwhere %s)" % self.wexpr())
